@@ -19,6 +19,12 @@ type Zone struct {
 	// many octets owned by an unrelated name (so that the names that follow
 	// sit - and are pointed at - beyond the first kilobyte of the message).
 	Bulk int `json:"bulk,omitempty"`
+	// NegSOA: answers without records (NODATA, NXDOMAIN) carry the zone's SOA
+	// record in the authority section, as authoritative and recursive servers
+	// do (RFC 2308): TTL NegSOATTL, MINIMUM field NegSOAMin.
+	NegSOA    bool   `json:"neg_soa,omitempty"`
+	NegSOATTL uint32 `json:"neg_soa_ttl,omitempty"`
+	NegSOAMin uint32 `json:"neg_soa_min,omitempty"`
 }
 
 // Fault kinds.
